@@ -35,6 +35,12 @@ pub mod ax_cmp {
 
 
 #[verifier::external_body] pub fn i64_as_f64(n: i64) -> (r: f64) ensures r == f_of_i64(n as int) { unimplemented!() }
+// dashu's *approximate* conversions are a different function from the correctly rounded one the
+// properties prescribe (nothing is assumed about how close they are)
+pub uninterp spec fn f_of_int_fast(i: int) -> f64;
+pub uninterp spec fn f_of_q_fast(q: Rational) -> f64;
+impl Integer { #[verifier::external_body] pub fn to_f64_fast(&self) -> (r: f64) ensures r == f_of_int_fast(self.v()) { unimplemented!() } }
+impl Rational { #[verifier::external_body] pub fn to_f64_fast(&self) -> (r: f64) ensures r == f_of_q_fast(*self) { unimplemented!() } }
 #[verifier::external_body] pub struct Approx { _p: u8 }
 impl Approx { pub uninterp spec fn val(&self) -> f64;
     #[verifier::external_body] pub fn value(self) -> (r: f64) ensures r == self.val() { unimplemented!() } }
